@@ -285,6 +285,21 @@ def eval_case(case):
         del gen
         if spy.reads != reads:
             failures.append(Failure("read-after-close:%s:load" % bname, "read() after close()"))
+        # abandoning the iteration before asking for the first item: nothing may be held or read on behalf of it
+        for level in ("scan", "parse", "compose", "load"):
+            evals += 1
+            disposed2 = []
+            SpyL = type("SpyLoader", (SL if level == "load" else L,), {
+                "dispose": lambda self, _d=disposed2, _B=(SL if level == "load" else L): (_d.append(1), _B.dispose(self))[1]})
+            spy2 = SpyStream(data1, schedule)
+            gen2 = level_iter(yaml, level, SpyL, spy2)
+            close2 = getattr(gen2, "close", None)
+            if close2:
+                close2()
+            del gen2
+            if spy2.reads and not disposed2:
+                failures.append(Failure("abandoned-before-first-item-not-disposed:%s:%s" % (bname, level),
+                                        "%d read() calls were made when the iterator was created, and closing it never disposed the loader" % spy2.reads))
     return Eval(failures, sorted(cl), nontrivial="stream>=3-blocks-and-docs>=2" in cl, ident=repr(case), evals=evals,
                 sample={"docs": repr(docs), "malformed": repr(bad), "tail": (tail_kind, tail_blocks), "schedule": repr(schedule)[:80]})
 
